@@ -80,6 +80,8 @@ type State struct {
 	trace []string
 	// iterator states, keyed by iterator id
 	iters map[int]*IterState
+	// walks over immutable Go map values (range loops), keyed by walk id
+	miters map[int]*MapIterState
 	facts map[*Term]bool
 	dead  bool
 	inBounds bool
@@ -98,7 +100,46 @@ func (s *State) clone() *State {
 			n.iters[k] = &c
 		}
 	}
+	if s.miters != nil {
+		n.miters = map[int]*MapIterState{}
+		for k, v := range s.miters {
+			c := *v
+			n.miters[k] = &c
+		}
+	}
 	return n
+}
+
+// MapIterState: a range loop over a Go map value that nothing can write while it is walked (a map inside a struct
+// value, e.g. a field of a genesis state): the walk visits every key present exactly once, in an unspecified order
+// (seq is an arbitrary enumeration without repetition, pos its inverse).
+type MapIterState struct {
+	Map, Seq, N, Idx *Term
+}
+type MapIterVal struct{ ID int }
+
+var mapIterCounter int
+
+func (x *Exec) newMapIter(st *State, m *Term) Val {
+	mapIterCounter++
+	id := mapIterCounter
+	ks := m.Sort.Fields[0].Sort.Key
+	seq := x.freshTerm(fmt.Sprintf("mr%d_seq", id), ArraySort(SInt, ks))
+	n := x.freshTerm(fmt.Sprintf("mr%d_n", id), SInt)
+	pos := fmt.Sprintf("mr%d_pos", id)
+	st.assume(Ge(n, IntLit(0)))
+	has := SelField(m, 0)
+	j := NewBound("j", SInt)
+	kj := Select(seq, j)
+	st.assume(Forall(j, Implies(And(Ge(j, IntLit(0)), Lt(j, n)), And(Select(has, kj), Eq(UF(pos, SInt, kj), j)))))
+	k := NewBound("k", ks)
+	pk := UF(pos, SInt, k)
+	st.assume(Forall(k, Implies(Select(has, k), And(Ge(pk, IntLit(0)), Lt(pk, n), Eq(Select(seq, pk), k)))))
+	if st.miters == nil {
+		st.miters = map[int]*MapIterState{}
+	}
+	st.miters[id] = &MapIterState{Map: m, Seq: seq, N: n, Idx: IntLit(0)}
+	return &MapIterVal{ID: id}
 }
 
 func (s *State) assume(t *Term) {
@@ -1218,6 +1259,11 @@ func (x *Exec) step(f *Frame, st *State, ins ssa.Instruction) bool {
 			f.names[id.Name] = in.X
 		}
 	case *ssa.Range:
+		if m, ok := x.value(f, st, in.X).(*Term); ok && isMapSort(m.Sort) {
+			// a map value (not a mutable map object): every key present is visited exactly once, in some order
+			f.regs[in] = x.newMapIter(st, m)
+			break
+		}
 		// over-approximation: the iteration yields arbitrarily many arbitrary (key, value) pairs
 		x.assumed["range over a Go map / string at "+x.pos(in.Pos())+": elements unconstrained"] = true
 		f.regs[in] = &OpaqueVal{Name: "maprange"}
@@ -1226,6 +1272,18 @@ func (x *Exec) step(f *Frame, st *State, ins ssa.Instruction) bool {
 		if !ok || tup.Len() != 3 {
 			x.errorf("%s: Next with unexpected type", f.fn.Name())
 			return false
+		}
+		if mv, isMI := f.regs[in.Iter].(*MapIterVal); isMI && !in.IsString {
+			if mi := st.miters[mv.ID]; mi != nil {
+				key := Select(mi.Seq, mi.Idx)
+				val := Select(SelField(mi.Map, 1), key)
+				okv := Lt(mi.Idx, mi.N)
+				st.assume(Implies(okv, TypeInv(key, tup.At(1).Type(), 0)))
+				st.assume(Implies(okv, TypeInv(val, tup.At(2).Type(), 0)))
+				mi.Idx = Add(mi.Idx, IntLit(1))
+				f.regs[in] = &TupleVal{[]Val{okv, key, val}}
+				break
+			}
 		}
 		okv := x.freshTerm("next_ok", SBool)
 		var kv, vv Val
